@@ -1,14 +1,27 @@
 #!/bin/bash
-# Build the four feature-set binaries of simrt into /verif/sim/bin
+# Build the feature-set binaries of simrt into sim/bin: four feature sets in the
+# dev profile (debug assertions on) and two of them again in the `nodebug` profile
+# (what `cargo build --release` gives a guest: debug_assert! and cfg!(debug_assertions)
+# paths of the runtime take their other branch).
 set -e
 cd "$(dirname "$(readlink -f "$0")")"
 mkdir -p bin
 cp /repo/Cargo.lock Cargo.lock 2>/dev/null || true
-PROFILE_FLAG=${SIM_PROFILE_FLAG:-}
-build() { # name features
-  if [ -z "$2" ]; then cargo build -q -p simrt $PROFILE_FLAG --target-dir target/$1 2>&1; else cargo build -q -p simrt $PROFILE_FLAG --features "$2" --target-dir target/$1 2>&1; fi
+build() { # name features profile
+  local prof=() feat=()
+  [ "$3" = nodebug ] && prof=(--profile nodebug)
+  [ -n "$2" ] && feat=(--features "$2")
+  cargo build -q -p simrt "${prof[@]}" "${feat[@]}" --target-dir target/$1 2>&1
 }
-build async "" & build itw itw & build spawn spawn & build all "itw,spawn,fstream" &
-wait
-d=debug; [ -n "$PROFILE_FLAG" ] && d=release
-for n in async itw spawn all; do cp target/$n/$d/simrt bin/simrt-$n; done
+pids=()
+build async "" dev & pids+=($!)
+build itw itw dev & pids+=($!)
+build spawn spawn dev & pids+=($!)
+build all "itw,spawn,fstream" dev & pids+=($!)
+build async-rel "" nodebug & pids+=($!)
+build all-rel "itw,spawn,fstream" nodebug & pids+=($!)
+fail=0
+for p in "${pids[@]}"; do wait $p || fail=1; done
+[ $fail -eq 0 ] || { echo "error: a simrt feature set failed to build"; exit 1; }
+for n in async itw spawn all; do cp target/$n/debug/simrt bin/simrt-$n; done
+for n in async-rel all-rel; do cp target/$n/nodebug/simrt bin/simrt-$n; done
